@@ -281,6 +281,22 @@ def rules(ctx: Ctx) -> None:
     ctx.extra["mutation_sites_judged"] = n_sites
     ctx.ob("R12.2", "no-shared-state-written", True, ev.loc(), f"{len(reach_fns)} functions reachable from the evaluator scanned for writes to shared objects", trivial=True)
 
+    # memoising decorators: the memo is one process-wide table shared by every run, thread and configuration; acceptable only on a function
+    # that computes from its arguments alone (no package function below it, no configuration read)
+    _MEMO = ("lru_cache", "cache", "cached", "memoize", "memoized")
+    for f in prog.funcs.values():
+        memo = [d for d in f.decorators if d.split("(")[0].split(".")[-1] in _MEMO]
+        if not memo:
+            continue
+        below = prog.reachable_from([f.qual]) - {f.qual}
+        reads_cfg = [n for q in [f.qual] + sorted(below) if q in prog.funcs for n in prog.walk_fn(prog.funcs[q])
+                     if isinstance(n, ast.Attribute) and isinstance(n.value, ast.Name) and n.value.id == "SQLLineageConfig"]
+        pure = not [q for q in below if q in prog.funcs] and not reads_cfg
+        ctx.ob("R12.2", f"memoised:{f.owner}", pure, f.loc(),
+               f"`@{memo[0]}` keeps the results of {f.name} for the life of the process: "
+               + ("it computes from its arguments alone" if pure else f"it runs {len([q for q in below if q in prog.funcs])} package function(s) below it"
+                  + (" and reads the configuration" if reads_cfg else "") + " - a later run (other default schema, other metadata, other thread) gets the answer of the first"))
+
     # analyzer is a fresh local per evaluation
     an_defs = [node for kind, node in prog.local_defs(ev, "analyzer")] if prog.local_defs(ev, "analyzer") else []
     ctors = []
@@ -332,6 +348,12 @@ def rules(ctx: Ctx) -> None:
     common.flag_rule(ctx, R, "R12.4")
     # ---- R12.5 the provider look-up keeps no memory and does not change what its source handed out (= R13.5) ------------------------
     common.import_rules(ctx, "C13", {"R13.5": "R12.5"})
+
+    # ---- R12.6 (= R15.1 / R15.2): the scoped overrides live in the calling thread's own entry and are removed on exit - parked in one shared
+    # slot between call and enter, two threads opening scopes at the same time run under each other's settings
+    from .common import import_rules as _imp12
+
+    _imp12(ctx, "C15", {"R15.1": "R12.6", "R15.2": "R12.6"})
 
 
 def _stores_objects(prog: Prog, fn: Fn, st: ast.stmt) -> Optional[str]:
